@@ -4,11 +4,31 @@ from props import P
 P("C12",
   title="Ticking components tick on clock edges, once per instant, while busy",
   design_ref="DESIGN.md §3 C12",
-  technique="Coq proof (invariant of the TickScheduler dedup guard by induction over arbitrary call/dispatch histories, "
-            "clock arithmetic from the C42 model) + exact model/impl correspondence by vm_compute on projected histories "
-            "of real TickingComponents in a real SerialEngine",
-  level_text="TBD",
-  level_note="TBD",
-  assumptions=["engine contract (C01): time never decreases, no pending event is skipped, each scheduled event is dispatched once, handlers are not re-entered"],
-  trusted=["modelled, not verified: modeling/ticker.go"],
+  technique="Coq proof (invariant of the TickScheduler dedup guard by induction over arbitrary call/dispatch histories; clock "
+            "arithmetic imported from the C42 model and its exactness lemmas) + exact model/implementation correspondence by "
+            "vm_compute on per-component projections of runs of real TickingComponents in a real SerialEngine",
+  level_text="Model: one TickScheduler/TickingComponent (hasScheduledTick, nextTickTime, its queued tick events, TickNow, TickLater, "
+             "NotifyRecv, NotifyPortFree, Handle with an arbitrary progress bit, engine.Schedule's past-time panic, uint64 wrap) "
+             "against an adversarial environment that advances engine time, issues calls (also from inside Tick()) and dispatches "
+             "the earliest tick event. Theorems, for every frequency 1 Hz..1 THz and every such history whose next clock edges are "
+             "representable: c12_on_edge (tick times are multiples of the period), c12_once_per_instant and "
+             "c12_no_duplicate_tick_events (strictly increasing tick times; no two queued tick events share a time), "
+             "c12_progress_reticks (after Tick() returned true the NEXT tick is exactly at the next edge and cannot be skipped), "
+             "c12_notify_later_edge (after NotifyRecv/NotifyPortFree/TickLater the tick at the next edge is dispatched or still "
+             "queued with time not beyond it, and no tick lies strictly in between), c12_no_panic; c12_tick_now_where characterises "
+             "TickNow including the same-instant drop after the tick was handled (C09's finding, witness included; not a C12 clause); "
+             "regression lemmas refute the mutations >= -> > and NextTick -> ThisTick and show the silent stop at the 2^64 wrap. "
+             "Tie: scripted multi-component runs (1-4 components, mixed and non-dividing periods, primary/secondary, self calls, "
+             "duplicate same-instant requests, overflow panics) are projected per component and replayed step by step by the model "
+             "(every Schedule call, every dispatched tick time, legality of every step, empty queue at completion); holds_on "
+             "re-evaluates the four clauses on the observed history without the model.",
+  level_note="Trusted: Coq kernel + vm_compute; the Go harness (engine wrapper recording Schedule calls, engine hooks recording "
+             "dispatches, projection per component); the hand-written model of ticker.go. The engine is not modelled here: its "
+             "contract (time monotone, no pending event skipped, each event dispatched once, handlers not re-entered) is the legality "
+             "condition of histories, checked on every real run by the replay and proved for the engine model under C01. "
+             "A link theorem check_case -> holds_on is not proved for C12. Checkpoint restore of the guard is out of scope (C06).",
+  assumptions=["engine contract (C01): time never decreases, no pending event is skipped, each scheduled event is dispatched once, handlers are not re-entered",
+               "theorems quantify over histories in which every engine time t has least_multiple_gt(period, t) < 2^64 (beyond that the code wraps: modelled, tied, witnessed, excluded from the clauses)"],
+  trusted=["modelled, not verified: modeling/ticker.go (TickScheduler.TickNow/TickLater, TickingComponent.NotifyRecv/NotifyPortFree/Handle); timing/freq.go via C42's model",
+           "not modelled: TickScheduler.snapshot/restore (checkpoint), the mutex (serial engine: single goroutine)"],
   )
